@@ -52,18 +52,27 @@ def actualcall_routing_rule(prog, run, rid):
 
         def h(name, ret):
             return lambda *a_: (log.append((name, a_[0] if a_ else None)), ret)[1]
-        ev = Evaluator(prog, ac, env={"lastActualFunctionCall_": last, "enabled_": en, "tracing_": tr, "ignoreOtherCalls_": ig, ac.params[0]["name"]: ("str", "f")}, calls={
+        cc = prog.fn("MockSupport::createActualCall", required=False)
+        ev = Evaluator(prog, ac, env={"lastActualFunctionCall_": last, "enabled_": en, "tracing_": tr, "ignoreOtherCalls_": ig, "actualCallOrder_": 5, ac.params[0]["name"]: ("str", "f")}, calls={
             "MockExpectedCallsList::hasExpectationWithName": lambda *a_: 0,
             "MockSupport::appendScopeToName": lambda *a_: ("str", "f"), "MockCheckedActualCall::checkExpectations": h("check", 0),
-            "MockSupport::callIsIgnored": lambda *a_: ig, "MockSupport::createActualCall": h("create", 4100), "MockCheckedActualCall::withName": h("withName", 4100),
+            "MockSupport::callIsIgnored": lambda *a_: ig, "MockCheckedActualCall::withName": h("withName", 4100),
             "MockIgnoredActualCall::instance": h("ignoredInstance", 1), "MockActualCallTrace::instance": h("traceInstance", 2), "MockActualCallTrace::withName": h("traceWithName", 2)})
         ev.pass_object = True
+        ev.heap_mode = True
+        ev.inline = {"MockSupport::createActualCall"}
         ev.optional_stubs = {"MockSupport::callIsIgnored"}      # (ignoreOtherCalls_ and hasExpectationWithName are modelled as well)
+        if cc is not None:
+            run.analysed(cc)
         try:
             ev.run_blocks(ac.entry, max_steps=400)
         except Unknown as u:
             run.broke("%s: MockSupport::actualCall cannot be folded: %s" % (rid, u))
             break
+        # the checked call object: `new MockCheckedActualCall(order, reporter, expectations)` wherever it is written
+        made = [t[1] for t in ev.trace if str(t[0]).startswith("new MockCheckedActualCall")]
+        for m_ in made:
+            log.append(("create", m_[0]))
         kinds = [k for k, o in log]
         why = []
         if last:
@@ -77,8 +86,88 @@ def actualcall_routing_rule(prog, run, rid):
         routed = [k for k in kinds if k in ("ignoredInstance", "traceInstance", "create")]
         if routed != [want]:
             why.append("routed to %s, expected %s" % (routed, want))
+        # strict ordering numbers the CHECKED calls 1, 2, 3, ...: a checked call takes the next number, a call answered by the
+        # ignored / trace object takes none
+        order_after = ev.env.get("actualCallOrder_")
+        if want == "create":
+            if len(made) == 1 and (made[0][1:2] != [6] or order_after != 6):
+                why.append("the checked call is numbered %s and the counter is %s afterwards; it is the 6th checked call" % (made[0][1:2], order_after))
+            if len(made) == 1 and ev.env.get("lastActualFunctionCall_") != made[0][0]:
+                why.append("the new checked call is not remembered as the pending one")
+        elif order_after != 5:
+            why.append("a call that is not checked (disabled, traced or ignored) moves the strict-order counter from 5 to %s: the next checked call falls outside its expected order window" % order_after)
         run.ob(rid, "actualCall folded [previous call %s, enabled=%d, tracing=%d, ignored=%d]" % ("pending" if last else "none", en, tr, ig), ac.site, not why, witness=kinds, what="; ".join(why))
 
+
+
+def diagnosis_rule(prog, run, rid):
+    """Which diagnosis an unexpected parameter gets ("unexpected parameter NAME" vs "unexpected VALUE / TYPE of a known parameter") is
+    decided in the failure object's constructor from the expectations. Folded against a set model of MockExpectedCallsList over every
+    set of expectations {called function f / other function g} x {has a parameter of that name or not}: the headline is one text when
+    an expectation OF THE CALLED FUNCTION knows the name and another text otherwise, whatever other functions expect. The wording
+    itself is not fixed by the rule (only: two different headlines, each a function of the class)."""
+    EXPS = [("f", 1), ("f", 0), ("g", 1), ("g", 0)]
+    for cls, keep in (("MockUnexpectedInputParameterFailure", "onlyKeepExpectationsWithInputParameterName"), ("MockUnexpectedOutputParameterFailure", "onlyKeepExpectationsWithOutputParameterName")):
+        fs = [f for f in prog.functions.values() if f.qn == "%s::%s" % (cls, cls)]
+        if len(fs) != 1:
+            raise AnalysisBroken("C08.%s: constructor of %s not found" % (rid, cls))
+        f = fs[0]
+        run.analysed(f)
+        names = [q["name"] for q in f.params]
+        heads = {}
+        for r_ in range(len(EXPS) + 1):
+            for world in itertools.combinations(EXPS, r_):
+                lists, text = {"ALL": list(world)}, {}
+
+                def add_related(key, name, src):
+                    lists.setdefault(key, []).extend(e for e in lists[src] if ("str", e[0]) == name)
+                    return 0
+
+                def add_all(key, src):
+                    lists.setdefault(key, []).extend(lists[src])
+                    return 0
+
+                def keep_named(key, pname):
+                    lists[key] = [e for e in lists.get(key, []) if e[1]]
+                    return 0
+
+                def unmodelled(qn):
+                    def h(*a_):
+                        raise Unknown("list operation %s is not part of the set model" % qn)
+                    return h
+                calls = string_hooks()
+                for g in prog.functions.values():
+                    if g.qn.startswith("MockExpectedCallsList::") and g.kind not in ("ctor", "dtor"):
+                        calls[g.qn] = unmodelled(g.qn)
+                calls.update({
+                    "MockExpectedCallsList::addExpectationsRelatedTo": add_related, "MockExpectedCallsList::addExpectations": add_all, "MockExpectedCallsList::" + keep: keep_named,
+                    "MockExpectedCallsList::isEmpty": lambda key: 0 if lists.get(key) else 1, "MockExpectedCallsList::size": lambda key: len(lists.get(key, [])),
+                    "SimpleString::operator=": lambda key, v: (text.__setitem__(key, v[1] if isinstance(v, tuple) and v[0] == "str" else None), 0)[1],
+                    "SimpleString::operator+=": lambda key, v: (text.__setitem__(key, None if text.get(key, "") is None or not (isinstance(v, tuple) and v[0] == "str") else text.get(key, "") + v[1]), 0)[1],
+                    "MockFailure::addExpectationsAndCallHistoryRelatedTo": lambda *a_: 0, "MockFailure::addExpectationsAndCallHistory": lambda *a_: 0, "MockFailure::MockFailure": lambda *a_: 0,
+                    "MockNamedValue::getName": lambda *a_: ("str", "p"), "MockNamedValue::getType": lambda *a_: ("str", "int"), "StringFrom": lambda *a_: ("str", "4")})
+                ev = Evaluator(prog, f, env=dict(zip(names, (0, ("str", "f"), "PARAM", "ALL"))), calls=calls)
+                ev.pass_object = "key"
+                ev.heap_mode = True
+                ev.optional_stubs = set(calls)
+                try:
+                    ev.run_blocks(f.entry, max_steps=4000)
+                except Unknown as u:
+                    raise AnalysisBroken("C08.%s: %s cannot be folded against the set model of the expectations: %s" % (rid, cls, u))
+                msgs = [t for t in text.values() if t]
+                if len(text) != 1 or len(msgs) != 1:
+                    raise AnalysisBroken("C08.%s: %s builds its message through %d string objects (one modelled)" % (rid, cls, len(text)))
+                heads.setdefault(1 if ("f", 1) in world else 0, {}).setdefault(msgs[0].split("\n")[0], []).append(list(world))
+        known, unknown = heads.get(1, {}), heads.get(0, {})
+        why = ""
+        if len(known) != 1 or len(unknown) != 1:
+            odd = known if len(known) != 1 else unknown
+            minority = min(odd.items(), key=lambda kv: len(kv[1]))
+            why = "the headline depends on more than whether the called function expects a parameter of that name: with expectations %s it reads %r" % (minority[1][0], minority[0])
+        elif set(known) & set(unknown):
+            why = "the same headline %r whether or not the called function knows the parameter name" % list(known)[0]
+        run.ob(rid, "%s folded over the 16 sets of expectations {called / other function} x {knows the parameter name or not}: one headline iff an expectation of the called function knows the name, another otherwise" % cls, f.site, not why,
+               witness={"name known to the called function": sorted(known), "not known": sorted(unknown)}, what="" if not why else "the first deviation is reported with the diagnosis of another one: " + why)
 
 
 def check(ctx, run):
@@ -97,6 +186,8 @@ def check(ctx, run):
     run.rule("R11", "actualCall routing folded over (previous call pending, enabled, tracing, ignored): the previous call is retired first on every route, then disabled -> ignored call, tracing -> trace, ignored name -> ignored call, else a checked call", floor=16, exhaustive=True)
     run.rule("R10", "no stale per-call marks: an expectation dropped from a call's candidate list is clean before it can be a candidate again (reset where it is dropped, or all candidates reset when a call collects them)", floor=2)
     run.rule("R13", "expectation predicates folded over their truth tables: relatesToObject = (no specific object expected) or (expected object == object of the call, NULL being an object like any other); onObject records (specific, object, not yet passed); isMatchingActualCall = parameters match and passed to object; isMatchingActualCallAndFinalized = that and (no ignored parameters or finalized); relatesTo compares names by content", floor=5, exhaustive=True)
+    run.rule("R14", "matching diagnosis: the unexpected-parameter failures (input, output) folded against a set model of the expectation list over every set of expectations of the called and of another function: the headline says 'unknown name' iff no expectation of the called function has a parameter of that name", floor=2, exhaustive=True)
+    diagnosis_rule(prog, run, "R14")
     run.rule("R9", "matching-state reset coverage: every field or per-parameter flag set by the per-call marker methods is reset by resetActualCallMatchingState", floor=3)
 
     # ---------------- R1 / R2 -----------------------------------------------
